@@ -388,6 +388,7 @@ def run(prop, tier, seed, replay=None):
         from . import inflight
 
         inflight.parent_invalid_into(rep)
+        inflight.child_first_invalid_into(rep)
     if prop == "C18":
         rep.rule = (
             "3 worlds x {first build, rebuild after a change, cache-miss resolution} x fault sources: invalid method (misuse of call_next, "
